@@ -32,6 +32,11 @@ func init() {
 		ruleC16Snapshot)
 }
 
+type invFn struct {
+	f     *Fn
+	param types.Object
+}
+
 func ruleC16Snapshot(p *Prog, r *Res) { ruleC16SnapshotMode(p, r, false) }
 
 // ruleC16SnapshotMode: settlingOnly restricts the report to the clause C09 needs (flag cleared before the re-apply);
@@ -51,10 +56,6 @@ func ruleC16SnapshotMode(p *Prog, r *Res, settlingOnly bool) {
 		return
 	}
 	// the functions that apply the invalidation on the service goroutine, with the parameter that carries the streams
-	type invFn struct {
-		f     *Fn
-		param types.Object
-	}
 	var invFns []invFn
 	for _, f := range p.FnList {
 		if f.Short != "manager" || f.Lit != nil || f.Body() == nil {
@@ -140,7 +141,11 @@ func ruleC16SnapshotMode(p *Prog, r *Res, settlingOnly bool) {
 				if settlingOnly {
 					continue
 				}
-				r.Bad(rule, key, p.Pos(c), "output is computed from the caller's index snapshot (a View held by a request goroutine) and stored under the stream id; an import that extended the stream after the snapshot was taken has already run its invalidation, and no completion on the service goroutine re-validates the store: the stale output is served until the stream changes again")
+				if ok, why := apiStoreRevalidated(p, ctx, f, c, inv, invFns, mgrField); ok {
+					r.Ok(rule, key, p.Pos(c), why)
+				} else {
+					r.Bad(rule, key, p.Pos(c), "output is computed from the caller's index snapshot (a View held by a request goroutine) and stored under the stream id; an import that extended the stream after the snapshot was taken has already run its invalidation, and the store is not re-validated on the service goroutine ("+why+"): the stale output is served until the stream changes again")
+				}
 				continue
 			}
 			// running flag: bool Manager field assigned true in the starter and false in a completion
@@ -381,4 +386,304 @@ func ruleC16SnapshotMode(p *Prog, r *Res, settlingOnly bool) {
 	} else {
 		r.Floor(rule, 1, r.CountRule(rule))
 	}
+}
+
+// apiStoreRevalidated: a store of converter output made on a request goroutine (call `call` of CachedConverter.Data in
+// f) is re-validated on the service goroutine:
+//
+//	(1) every path from the store to a successful return on which the store may have happened posts a closure on
+//	    Manager.jobs (edges on which the call failed or answered "was cached" are pruned);
+//	(2) that closure calls the invalidation function with a mask in which the id of the converted stream is set;
+//	(3) if the call is conditional, the condition compares a View field with a Manager field (a generation): the Manager
+//	    field is incremented on every path through the import completion's own invalidation, and the View field is
+//	    assigned from it in the closure that takes the view's index snapshot.
+func apiStoreRevalidated(p *Prog, ctx *CtxInfo, f *Fn, call *ast.CallExpr, inv *types.Func, invFns []invFn, mgrField func(*types.Info, ast.Expr) *types.Var) (bool, string) {
+	info := f.Pkg.TypesInfo
+	fl := p.Flow(f)
+	pt, ok := fl.PointOf(call)
+	if !ok {
+		return false, "store not in the CFG"
+	}
+	// result variables of the Data call: wasCached (bool) and err
+	var cachedVar, errVar types.Object
+	if as, ok := fl.node(pt).(*ast.AssignStmt); ok {
+		for _, l := range as.Lhs {
+			if o := identObj(info, l); o != nil {
+				if b, isB := o.Type().Underlying().(*types.Basic); isB && b.Kind() == types.Bool {
+					cachedVar = o
+				}
+				if types.Identical(o.Type(), types.Universe.Lookup("error").Type()) {
+					errVar = o
+				}
+			}
+		}
+	}
+	var posted []*Fn
+	for _, l := range ctx.postedIn(f) {
+		if l.Node().Pos() > call.Pos() {
+			posted = append(posted, l)
+		}
+	}
+	if len(posted) == 0 {
+		return false, "nothing is posted on Manager.jobs after the store"
+	}
+	isPost := func(n ast.Node) bool {
+		for _, l := range posted {
+			if site := ctx.PostSite[l]; site != nil && site == n {
+				return true
+			}
+		}
+		return false
+	}
+	// (1)
+	fl.EdgeOK = func(b *cfg.Block, succ int) bool {
+		if len(b.Succs) != 2 || len(b.Nodes) == 0 {
+			return true
+		}
+		cond, ok := b.Nodes[len(b.Nodes)-1].(ast.Expr)
+		if !ok {
+			return true
+		}
+		noStore := func(e ast.Expr, truth bool) bool {
+			e = ast.Unparen(e)
+			if u, ok := e.(*ast.UnaryExpr); ok && u.Op == token.NOT {
+				e, truth = ast.Unparen(u.X), !truth
+			}
+			if o := identObj(info, e); o != nil && o == cachedVar {
+				return truth // wasCached is true on this edge
+			}
+			if be, ok := e.(*ast.BinaryExpr); ok && identObj(info, be.X) == errVar && errVar != nil && types.ExprString(be.Y) == "nil" {
+				return (be.Op == token.NEQ) == truth // err != nil on this edge
+			}
+			return false
+		}
+		if succ == 0 {
+			for _, c := range conjuncts(cond) {
+				if noStore(c, true) {
+					return false
+				}
+			}
+			return true
+		}
+		// false edge: some conjunct is false; if every conjunct being false means "no store", the edge means no store
+		cs := conjuncts(cond)
+		all := len(cs) > 0
+		for _, c := range cs {
+			if !noStore(c, false) {
+				all = false
+			}
+		}
+		return !all
+	}
+	if res := fl.ExitAvoiding([]Pt{After(pt)}, func(n ast.Node) bool { return isPost(n) || isErrReturn(info, n) }); res.Found {
+		return false, "a path on which the output was stored returns without posting to the service goroutine (" + fl.traceString(res) + ")"
+	}
+	streamArg := ""
+	if len(call.Args) > 0 {
+		streamArg = types.ExprString(call.Args[0])
+	}
+	// (2)+(3) in one of the posted closures
+	var lastWhy string
+	for _, l := range posted {
+		linfo := l.Pkg.TypesInfo
+		var invCall *ast.CallExpr
+		var guards []ast.Expr
+		inspectParents(l.Body(), func(x ast.Node, parents []ast.Node) bool {
+			cc, ok := x.(*ast.CallExpr)
+			if !ok || invCall != nil {
+				return true
+			}
+			fn := p.Callee(l.Pkg, cc)
+			if fn == nil {
+				return true
+			}
+			isInv := fn.Origin() == inv
+			for _, ifn := range invFns {
+				if p.FnOfObj(fn) == ifn.f {
+					isInv = true
+				}
+			}
+			if !isInv {
+				return true
+			}
+			invCall = cc
+			for i, par := range parents {
+				if is, ok := par.(*ast.IfStmt); ok {
+					var child ast.Node = x
+					if i+1 < len(parents) {
+						child = parents[i+1]
+					}
+					if child == ast.Node(is.Body) {
+						guards = append(guards, is.Cond)
+					}
+				}
+			}
+			return true
+		})
+		if invCall == nil || len(invCall.Args) != 1 {
+			lastWhy = "the posted closure does not call the invalidation"
+			continue
+		}
+		// the mask: a local on which Set(<id of the converted stream>) is called
+		a := ast.Unparen(invCall.Args[0])
+		if u, ok := a.(*ast.UnaryExpr); ok && u.Op == token.AND {
+			a = ast.Unparen(u.X)
+		}
+		mask := identObj(linfo, a)
+		idOK := false
+		if mask != nil {
+			// variables holding <streamArg>.ID()
+			idVars := map[types.Object]bool{}
+			ast.Inspect(f.Body(), func(y ast.Node) bool {
+				if as, ok := y.(*ast.AssignStmt); ok && len(as.Lhs) == len(as.Rhs) {
+					for i, rh := range as.Rhs {
+						if cc, ok := ast.Unparen(rh).(*ast.CallExpr); ok {
+							if se, ok := cc.Fun.(*ast.SelectorExpr); ok && se.Sel.Name == "ID" && types.ExprString(se.X) == streamArg {
+								if o := identObj(info, as.Lhs[i]); o != nil {
+									idVars[o] = true
+								}
+							}
+						}
+					}
+				}
+				return true
+			})
+			ast.Inspect(l.Body(), func(y ast.Node) bool {
+				cc, ok := y.(*ast.CallExpr)
+				if !ok || len(cc.Args) != 1 {
+					return true
+				}
+				se, ok := cc.Fun.(*ast.SelectorExpr)
+				if !ok || se.Sel.Name != "Set" || identObj(linfo, se.X) != mask {
+					return true
+				}
+				ast.Inspect(cc.Args[0], func(z ast.Node) bool {
+					if id, ok := z.(*ast.Ident); ok && idVars[linfo.Uses[id]] {
+						idOK = true
+					}
+					if c2, ok := z.(*ast.CallExpr); ok {
+						if s2, ok := c2.Fun.(*ast.SelectorExpr); ok && s2.Sel.Name == "ID" && types.ExprString(s2.X) == streamArg {
+							idOK = true
+						}
+					}
+					return true
+				})
+				return true
+			})
+		}
+		if !idOK {
+			lastWhy = "the posted closure invalidates a mask that is not shown to contain the id of the converted stream"
+			continue
+		}
+		if len(guards) == 0 {
+			return true, "the store is followed by an unconditional re-invalidation of the stream on the service goroutine"
+		}
+		// (3) generation comparison
+		viewT := p.Named("manager", "View")
+		for _, g := range guards {
+			be, ok := ast.Unparen(g).(*ast.BinaryExpr)
+			if !ok || be.Op != token.NEQ {
+				lastWhy = "the re-invalidation is guarded by " + types.ExprString(g) + ", which is not a generation comparison"
+				continue
+			}
+			var vf, mf *types.Var
+			for _, side := range []ast.Expr{be.X, be.Y} {
+				if m := mgrField(linfo, side); m != nil {
+					mf = m
+				} else if se, ok := ast.Unparen(side).(*ast.SelectorExpr); ok {
+					if v, ok := linfo.Uses[se.Sel].(*types.Var); ok && v.IsField() && viewT != nil {
+						if n := namedOf(linfo.TypeOf(se.X)); n != nil && n.Obj() == viewT.Obj() {
+							vf = v
+						}
+					}
+				}
+			}
+			if vf == nil || mf == nil {
+				lastWhy = "the re-invalidation is guarded by " + types.ExprString(g) + ", which does not compare a View field with a Manager field"
+				continue
+			}
+			// Manager generation incremented on every path through the import completion's invalidation
+			incOK, nInv := true, 0
+			for _, g2 := range ctx.Posted {
+				if g2.Pkg != l.Pkg || g2 == l {
+					continue
+				}
+				ginfo := g2.Pkg.TypesInfo
+				gfl := p.Flow(g2)
+				for _, ipt := range gfl.Find(func(n ast.Node) bool {
+					return gfl.hasCall(n, func(cc *ast.CallExpr) bool {
+						fn := p.Callee(g2.Pkg, cc)
+						if fn == nil {
+							return false
+						}
+						for _, ifn := range invFns {
+							if p.FnOfObj(fn) == ifn.f {
+								// only primary invalidations: the argument is not a Manager field (not the re-apply of a during-mask)
+								return len(cc.Args) == 1 && mgrField(ginfo, cc.Args[0]) == nil && identObj(ginfo, ast.Unparen(cc.Args[0])) != nil
+							}
+						}
+						return false
+					})
+				}) {
+					// skip closures of the converter completion: their argument is a local copy of the during-mask
+					if strings.Contains(g2.Key(), "convertStreamJob") {
+						continue
+					}
+					nInv++
+					isInc := func(n ast.Node) bool {
+						switch s := n.(type) {
+						case *ast.IncDecStmt:
+							return s.Tok == token.INC && mgrField(ginfo, s.X) == mf
+						case *ast.AssignStmt:
+							return len(s.Lhs) == 1 && mgrField(ginfo, s.Lhs[0]) == mf && s.Tok == token.ADD_ASSIGN
+						}
+						return false
+					}
+					before := gfl.Reach([]Pt{gfl.Entry()}, func(n ast.Node) bool { return n == gfl.node(ipt) }, isInc)
+					after := gfl.ExitAvoiding([]Pt{After(ipt)}, isInc)
+					if before.Found && after.Found {
+						incOK = false
+					}
+				}
+			}
+			if nInv == 0 || !incOK {
+				lastWhy = "Manager." + mf.Name() + " is not incremented on every path through the import completion's invalidation: a view would not notice the import"
+				continue
+			}
+			// View generation taken together with the index snapshot
+			snapOK := false
+			copyM := p.Method("manager", "Manager", "getIndexesCopy")
+			for _, g2 := range ctx.Posted {
+				ginfo := g2.Pkg.TypesInfo
+				takes, sets := false, false
+				inspectShallow(g2.Body(), func(y ast.Node) bool {
+					switch s := y.(type) {
+					case *ast.CallExpr:
+						if p.Callee(g2.Pkg, s) == copyM {
+							takes = true
+						}
+					case *ast.AssignStmt:
+						for i, lh := range s.Lhs {
+							if se, ok := ast.Unparen(lh).(*ast.SelectorExpr); ok && ginfo.Uses[se.Sel] == types.Object(vf) && i < len(s.Rhs) && mgrField(ginfo, s.Rhs[i]) == mf {
+								sets = true
+							}
+						}
+					}
+					return true
+				})
+				if takes && sets {
+					snapOK = true
+				}
+			}
+			if !snapOK {
+				lastWhy = "View." + vf.Name() + " is not assigned from Manager." + mf.Name() + " in the closure that takes the view's index snapshot"
+				continue
+			}
+			return true, fmt.Sprintf("after a store the request posts a closure that invalidates the stream again when the view is older than the last import (View.%s != Manager.%s; the Manager field is incremented with every import completion's invalidation, the View field is taken with the index snapshot)", vf.Name(), mf.Name())
+		}
+	}
+	if lastWhy == "" {
+		lastWhy = "no posted closure re-validates the store"
+	}
+	return false, lastWhy
 }
